@@ -3,7 +3,7 @@ from .. import common as C
 from .. import engine as E
 from .. import catalogue as K
 
-THEOREMS = ["c03_causal", "c03_failfast_first"]
+THEOREMS = ["c03_causal", "c03_failfast_first", "c03_stop_ends_the_work"]
 
 
 def run(ctx, H):
